@@ -220,7 +220,7 @@ func cmdCheck(args []string) {
 		os.Exit(2)
 	}
 	known := loadKnown(*verif)
-	timeout, confirm := 10, false
+	timeout, confirm := 20, false
 	if *tier == "thorough" {
 		timeout, confirm = 120, true
 	}
@@ -465,6 +465,18 @@ var globalAssumptions = []string{
 	"a freshly allocated object is not referenced from the pre-existing heap",
 }
 
-var propAssumptions = map[string][]string{}
+var propAssumptions = map[string][]string{
+	"C16": {
+		"scope: only streamReader.Receive is under contract; the generated decoder (Envelope/Message.UnmarshalVT), the protobuf library behind Deserialize, drpc's handling of the returned error and Engine.SendLocal are outside the proof",
+		"abstract contract assumed of DRPCRemote_ReceiveStream.Recv: on success the envelope and the elements of Messages are non-nil (nothing is assumed about indices or table lengths)",
+		"abstract contract assumed of Deserializer.Deserialize: returns normally; its result is named deser(data, tname)",
+		"trusted contract of (*Engine).SendLocal: returns normally and writes nothing streamReader.Receive reads again",
+		"int32 -> int conversion treated as exact (true on every Go platform)",
+	},
+	"C20": {
+		"scope: MemberSet.GetByHost/Contains/Add/Remove and SelfManaged.removeMember/addMembers are under contract; the message dispatch in SelfManaged.Receive, handleEventStream, discovery and the pinger are outside the proof",
+		"trusted contract of (*SelfManaged).sendMembersToAgent: returns normally and does not change the member set",
+	},
+}
 
 func sortStrings(s []string) []string { sort.Strings(s); return s }
